@@ -998,3 +998,11 @@ def canon_cases(cases: List[Case]) -> Tuple[str, List[str]]:
         val = canon_value(c.value) if c.outcome == "return" else "raise %s" % c.value
         out.append("%s -> %s" % (" & ".join(conds) if conds else "always", val))
     return ",".join(reads), sorted(set(out))
+
+
+def default_case_of(cases: List[Case]) -> Optional[Case]:
+    """The returning case in which no sentinel equality holds."""
+    for c in cases:
+        if c.outcome == "return" and not any(x[0] == "Eq" for x in c.conds):
+            return c
+    return None
